@@ -12,6 +12,60 @@ runner = tpconf.runner
 oracle = tpconf.oracle_c09
 
 
+TX_TIME = 540          # microseconds a classic frame occupies the bus at 250 kbit/s
+
+
+def bustime_cases(dll, n):
+    import refpeer as R
+    import peer as P
+    fd = dll != 'j1939-21'
+    iv = 10000 if fd else 50000
+    size_p2p = 1500 if fd else 200
+    size_bam = 400 if fd else 40
+    base = dict(stacks=[dict(dll=dll, max_cmdt=255, subs=[dict(cid=1, filt=0x10)], cas=[])], lat=[1], jit=[1000], tx_time=TX_TIME, inject=[],
+                script=[dict(t=1000, s=0, op='send', a=[0, 0xD0, 0x20, 6, 0x10, dict(seed=11, len=size_p2p)]),
+                        dict(t=3000, s=0, op='send', a=[0, 0xFE, 0x31, 6, 0x10, dict(seed=12, len=size_bam)])],
+                horizon=3000 + 12 * iv + 400_000, meta=dict(kind='bus-time', dll=dll, interval=iv))
+    dry = scen.run(dict(base))
+    dts = [e[0] for e in dry.trace if e[2] == 'tx' and ((e[3] >> 16) & 0xFF) == (0x4E if fd else 0xEB) and ((e[3] >> 8) & 0xFF) == 0xFF]
+    if len(dts) < 3:
+        return
+    for k in range(n):
+        target = dts[1 + k % 2]
+        x = -1600 + (k // 2) * 150
+        sc = dict(base)
+        if fd:
+            cts = [dict(t=target + x, to=0, id=R.ref_can_id(7, 0x4D00 + 0x10, 0x20), data=P.fd_cm(1, sess, 0xFFFFFF, 1, 255, 0, 0xD000), fd=True, via='listener') for sess in range(2)]
+        else:
+            cts = [dict(t=target + x, to=0, id=R.ref_tp_cm_id(7, 0x10, 0x20), data=[17, 255, 1, 255, 255] + R.ref_pgn3(0xD000), via='listener')]
+        sc['inject'] = cts
+        sc['meta'] = dict(base['meta'], cts_at=target + x)
+        yield sc
+
+
+def bustime_oracle(sc, res):
+    m = sc['meta']
+    fd = m['dll'] != 'j1939-21'
+    v = []
+    dts = [e[0] for e in res.trace if e[2] == 'tx' and ((e[3] >> 16) & 0xFF) == (0x4E if fd else 0xEB) and ((e[3] >> 8) & 0xFF) == 0xFF]
+    for a, b in zip(dts, dts[1:]):
+        if b - a < m['interval']:
+            v.append(dict(kind='bam-packets-closer-than-interval', gap=b - a, interval=m['interval'], cts_at=m.get('cts_at'), bus_time_per_frame=TX_TIME))
+            break
+    for js in res.job:
+        if js != 'alive':
+            v.append(dict(kind='job-thread-' + js))
+    return v
+
+
+def scenario_runner(sc):
+    return scen.run(sc) if sc.get('meta', {}).get('kind') == 'bus-time' else tpconf.runner(sc)
+
+
+def scenario_oracle(sc, res):
+    return bustime_oracle(sc, res) if sc.get('meta', {}).get('kind') == 'bus-time' else oracle(sc, res)
+
+
 def run(out, tier, rng, work):
     out.rule = ('a real stack (either layer, either role, RTS/CTS and BAM, all size residues, max_cmdt 1..255, optional minimum DT intervals) '
                 'against an independent reference peer that draws its free choices from the standard\'s envelope: CTS windows 1..min(limit, '
@@ -39,5 +93,17 @@ def run(out, tier, rng, work):
     j21 = [sc for sc, res in runs if sc['dll'] == 'j1939-21']
     for (k, j, g) in mism[:5]:
         out.broken.append('correspondence: model and implementation differ in scenario %s' % json.dumps({a: b for a, b in j21[k].items() if a != 'plan'})[:300])
+    # pacing when handing a frame to the bus takes time (bus-time mode, oracle only): a broadcast in progress while a
+    # connection-mode burst is released by a CTS arriving around one of the broadcast's deadlines
+    nb = 0
+    for dll in ('j1939-21', 'j1939-22'):
+        for sc in bustime_cases(dll, 24 if tier == 'quick' else 160):
+            res = scen.run(sc)
+            nb += 1
+            out.add_case(scen.sc_hash(sc), True)
+            for x in bustime_oracle(sc, res):
+                if x['kind'] not in worst:
+                    worst[x['kind']] = (x, sc)
+    out.extra['bus_time_runs'] = nb
     for kind, (x, sc) in worst.items():
         out.violation('%s: %s' % (kind, json.dumps(x, default=str)[:300]), dict(kind=kind), dict(broke='oracle', scenario=sc, violation=x))
